@@ -220,6 +220,18 @@ class Ctx:
         for tag, body in res.prints:
             if tag == "UNMATCHED":
                 info["unmatched"] = body[:4000]
+        if info["unmatched"] is None and ("Attempted to" in res.error or "unexpected exception" in res.error):
+            # An evaluation error while matching an event (typically comparing values of
+            # different shapes, i.e. the recorded event does not even have the shape the
+            # spec produces): the event being consumed is at the last printed value of l.
+            full = "\n".join(res.other)
+            ls = re.findall(r"^/\\ l = (\d+)", full, re.M)
+            if ls:
+                k = int(ls[-1])
+                lines = [x for x in open(trace_path) if x.strip()]
+                if 1 <= k <= len(lines):
+                    info["unmatched"] = "%d, %s" % (k, json.dumps(lines[k - 1].strip()))
+                    info["shape_error"] = True
         return False, info
 
     # ----------------------------------------------------------------- replay
